@@ -521,7 +521,7 @@ func runC08(c *Ctx) error {
 	if err := c08Pairs(c, c.Rng.Fork(), c.N(24, 300)); err != nil {
 		return err
 	}
-	if err := c08SmallEdits(c, c.Rng.Fork(), c.N(1200, 12000)); err != nil {
+	if err := c08SmallEdits(c, c.Rng.Fork(), c.N(500, 6000)); err != nil {
 		return err
 	}
 	return c08Acct(c, c.Rng.Fork(), c.N(400, 4000))
